@@ -102,9 +102,9 @@ def checkBuffer (inp obs : KV) : Option String × List (String × String) :=
       let vs := vs ++ (if z > cap then [("C15", "size-exceeds-capacity")] else [])
         ++ (if kind == "F" && !(fresh.any (·.1 == k)) then [("C15", "error-mode-enqueue-did-not-return-at-once")] else [])
         ++ (if fresh.any (fun (_, r) => r == "panic") then [("C15", "enqueue-panicked")] else [])
-        ++ (if shut' && !outst.isEmpty then [("C15", "blocked-enqueue-at-shutdown-never-returns")] else [])
+        ++ (if shut' && !outst.isEmpty then [("C15", "blocked-enqueue-at-shutdown-never-returns"), ("C20", "enqueue-blocks-for-ever-at-shutdown")] else [])
         ++ (if shut' && fresh.any (fun (_, r) => r == "ok") then [("C15", "enqueue-succeeds-at-or-after-shutdown")] else [])
-        ++ (if !shut' && !outst.isEmpty && z < cap then [("C15", "blocked-enqueue-with-free-place")] else [])
+        ++ (if !shut' && !outst.isEmpty && z < cap then [("C15", "blocked-enqueue-with-free-place"), ("C20", "enqueue-blocks-for-ever-with-free-place")] else [])
       (outst, shut', vs)
   (failure, viols.eraseDups)
 
